@@ -380,7 +380,7 @@ func CheckC06(e *Env) int {
 	// what another injector of the package (or an equally named set of another package)
 	// provides is not a source for this one
 	for _, rc := range crossInjectorCases() {
-		if rc.Class == "missing" {
+		if rc.Class == "missing" || rc.Class == "not-provider" {
 			cases = append(cases, rc)
 		}
 	}
